@@ -26,7 +26,9 @@ def alarm(seconds):
     def handler(signum, frame):
         raise Timeout()
     old = signal.signal(signal.SIGALRM, handler)
-    signal.setitimer(signal.ITIMER_REAL, seconds)
+    # repeating: if the exception is raised inside a callback where Python swallows it ("Exception ignored in" a gc callback, a
+    # __del__), the next tick raises it again - a one-shot timer would leave the guarded call unbounded
+    signal.setitimer(signal.ITIMER_REAL, seconds, 0.5)
     try:
         yield
     finally:
